@@ -22,7 +22,7 @@ import (
 // operations (JSON-serialisable: they go to the op log and into witnesses)
 
 type msgSpec struct {
-	K        string              `json:"k"` // create | mint | burn | chadmin | setmeta | send | grant | revoke
+	K        string              `json:"k"` // create | mint | burn | chadmin | setmeta | send | grant | revoke | wasm-create | wasm-mint | wasm-burn | wasm-chadmin | wasm-setmeta
 	Creator  string              `json:"creator"`
 	Signers  []string            `json:"signers"`
 	Sub      string              `json:"sub,omitempty"`
@@ -30,7 +30,8 @@ type msgSpec struct {
 	Amt      string              `json:"amt,omitempty"` // decimal big integer, may be negative
 	NewAdmin string              `json:"new_admin,omitempty"`
 	Meta     *banktypes.Metadata `json:"meta,omitempty"`
-	To       string              `json:"to,omitempty"`     // send: recipient; grant / revoke: grantee (Creator = granter)
+	To       string              `json:"to,omitempty"`     // send: recipient; grant / revoke: grantee (Creator = granter); wasm-mint: mint_to_address
+	From     string              `json:"from,omitempty"`   // wasm-burn: burn_from_address
 	ExpIn    int                 `json:"exp_in,omitempty"` // grant: allowance expires this many seconds after the current block time (0 = never)
 	// generator intent labels (never read by the oracle; they only feed the coverage key)
 	DenomClass   string `json:"dc,omitempty"`
@@ -40,7 +41,8 @@ type msgSpec struct {
 }
 
 type txSpec struct {
-	Signer int       `json:"signer"` // index into the user list: the account whose key signs (for a delegated message: the grantee)
+	Signer int       `json:"signer"` // index into the user list: the account whose key signs (for a delegated message: the grantee); Via = "wasm": index into the contract list
+	Via    string    `json:"via,omitempty"` // "" = signed transaction; "wasm" = the custom messages of one response of contract #Signer, dispatched through the wasm binding's message router
 	Msgs   []msgSpec `json:"msgs"`
 	Note   string    `json:"note,omitempty"`
 }
@@ -148,8 +150,9 @@ type token struct {
 	Minted *big.Int // sum of successful mints
 	Burned *big.Int // sum of successful burns
 	// bookkeeping for the generator / coverage only
-	CreatorIdx int
-	Sub        string
+	CreatorIdx      int // index of the creating user; -1: created by a contract through the wasm binding
+	CreatorContract int // index of the creating contract when CreatorIdx < 0
+	Sub             string
 }
 
 type model struct {
